@@ -1204,6 +1204,82 @@ fn sig_mutations_nonminimal(ctx: &mut Ctx, target: &pgp::packet::Signature, labe
 /// unlocked secret keys whose secret material starts with 0..3 zero octets (written as a shorter MPI;
 /// 1 in 256 generated keys): built through the public API from chosen material, then the usual
 /// oracles (announced length = written, parse back equal, canonical bytes)
+/// transferable keys whose components come in another (legal) order than the library writes them:
+/// the primary-flagged User ID second or last, user ids behind one another in every rotation.  A
+/// certificate is a sequence of packets: what is read is written back in the order it was read.
+fn gen_composed_orders(ctx: &mut Ctx) {
+    use pgp::composed::{Deserializable, SignedPublicKey, SignedSecretKey};
+    use rand::SeedableRng;
+    let mut rng = rand_chacha::ChaCha8Rng::seed_from_u64(0xC05C);
+    for ver in [KeyVersion::V4, KeyVersion::V6] {
+        let key = guarded(|| {
+            let mut b = SecretKeyParamsBuilder::default();
+            b.version(ver)
+                .key_type(if ver == KeyVersion::V6 { KeyType::Ed25519 } else { KeyType::Ed25519Legacy })
+                .can_certify(true)
+                .can_sign(true)
+                .primary_user_id("Primary <primary@example.org>".into())
+                .user_ids(vec!["Second <second@example.org>".into(), "Third <third@example.org>".into()])
+                .subkey(SubkeyParamsBuilder::default().version(ver).key_type(if ver == KeyVersion::V6 { KeyType::X25519 } else { KeyType::ECDH(ECCCurve::Curve25519Legacy) }).can_encrypt(pgp::composed::EncryptionCaps::All).build().ok()?);
+            b.build().ok()?.generate(&mut rng).ok()
+        });
+        let Ok(Some(key)) = key else {
+            ctx.stat("composed_orders:cannot_build");
+            continue;
+        };
+        for secret in [false, true] {
+            let Ok(bytes) = (if secret { key.to_bytes() } else { key.to_public_key().to_bytes() }) else { continue };
+            // split into packets, group each User ID with the signatures that follow it
+            let pkts: Vec<Vec<u8>> = PacketParser::new(&bytes[..]).flatten().filter_map(|p| { let mut v = Vec::new(); p.to_writer_with_header(&mut v).ok().map(|_| v) }).collect();
+            if pkts.concat() != bytes {
+                ctx.stat("composed_orders:split_not_exact");
+                continue;
+            }
+            let tag = |p: &Vec<u8>| p[0] & 0x3F;
+            let mut head: Vec<Vec<u8>> = Vec::new();
+            let mut uid_groups: Vec<Vec<Vec<u8>>> = Vec::new();
+            let mut tail: Vec<Vec<u8>> = Vec::new();
+            for p in pkts {
+                match tag(&p) {
+                    13 => uid_groups.push(vec![p]),
+                    7 | 14 => tail.push(p),
+                    _ if !tail.is_empty() => tail.push(p),
+                    _ if !uid_groups.is_empty() => uid_groups.last_mut().unwrap().push(p),
+                    _ => head.push(p),
+                }
+            }
+            if uid_groups.len() < 3 {
+                continue;
+            }
+            let n = uid_groups.len();
+            for order in [vec![0usize, 1, 2], vec![1, 0, 2], vec![1, 2, 0], vec![2, 1, 0], vec![2, 0, 1], vec![0, 2, 1]] {
+                if order.iter().any(|&i| i >= n) {
+                    continue;
+                }
+                let mut doc: Vec<u8> = head.concat();
+                for &i in &order {
+                    doc.extend(uid_groups[i].concat());
+                }
+                doc.extend(tail.concat());
+                let r = guarded(|| {
+                    if secret {
+                        SignedSecretKey::from_bytes(&doc[..]).ok().and_then(|k| k.to_bytes().ok())
+                    } else {
+                        SignedPublicKey::from_bytes(&doc[..]).ok().and_then(|k| k.to_bytes().ok())
+                    }
+                });
+                let input = format!("v{} secret={secret} user id order {order:?} doc={}", if ver == KeyVersion::V6 { 6 } else { 4 }, hx(&doc));
+                match r {
+                    Ok(Some(out)) => ctx.oracle("canonical_identical_bytes", "Signed{Public,Secret}Key::from_bytes -> to_bytes (component order)", &input, out == doc, &format!("written {} octets, differs at {:?}", out.len(), out.iter().zip(&doc).position(|(a, b)| a != b))),
+                    Ok(None) => ctx.oracle("accepted_object_serializes", "Signed{Public,Secret}Key::from_bytes (component order)", &input, false, "a legal order of the components was refused"),
+                    Err(p) => ctx.oracle("accepted_object_serializes", "Signed{Public,Secret}Key::from_bytes (component order)", &input, false, &format!("panic {p}")),
+                }
+                ctx.stat("composed_orders");
+            }
+        }
+    }
+}
+
 fn gen_secret_leading_zeros(ctx: &mut Ctx) {
     use pgp::crypto::public_key::PublicKeyAlgorithm;
     use pgp::packet::{PubKeyInner, PublicKey, SecretKey};
@@ -1254,6 +1330,7 @@ fn gen_secret_leading_zeros(ctx: &mut Ctx) {
 
 fn gen_api(ctx: &mut Ctx) {
     gen_secret_leading_zeros(ctx);
+    gen_composed_orders(ctx);
     let mut rng = rand_chacha::ChaCha8Rng::seed_from_u64(ctx.seed ^ 0xC05);
     let mut plans: Vec<(KeyVersion, KeyType, Option<KeyType>, &str)> = vec![
         (KeyVersion::V4, KeyType::Ed25519Legacy, Some(KeyType::ECDH(ECCCurve::Curve25519Legacy)), "v4-ed25519legacy"),
